@@ -2,8 +2,8 @@
     ([POOF] unreachable), and the repaired grammar ([fx = true]) never panics. *)
 From Coq Require Import NArith ZArith List Bool Lia.
 From Coq Require Import ZifyBool ZifyNat ZifyN.
-From Snel Require Import Base.Bytes Model.Tokenizer Model.Parser Model.Command
-  Proofs.ParserBasics Proofs.FuelProofs.
+From Snel Require Import Base.Bytes Model.Tokenizer Model.Parser Model.PlotQL Model.Command
+  Proofs.ParserBasics Proofs.FuelProofs Proofs.PlotProofs.
 Import ListNotations.
 Open Scope N_scope.
 
@@ -199,16 +199,49 @@ Proof. intro s. unfold parse_store. pose proof (store_rule_n s). destruct (store
 Lemma parse_replay_noof : forall s, parse_replay s <> POOF.
 Proof. intro s. unfold parse_replay. pose proof (replay_rule_n s). destruct (replay_rule s) as [[c r]| | |]; try discriminate. congruence. Qed.
 
-Theorem parse_command_fuel_enough : forall fx s, parse_command fx s <> POOF.
+Lemma parse_plot_cmd_noof : forall s, parse_plot_cmd s <> POOF.
 Proof.
-  intros fx s. unfold parse_command.
+  intro s. unfold parse_plot_cmd. pose proof (parse_plot_noof s). destruct (parse_plot s) as [[q|qs]| | |]; try discriminate. congruence.
+Qed.
+
+Lemma parse_define_noof : forall ts, parse_define ts <> POOF.
+Proof. intros ts. unfold parse_define. break_match; discriminate. Qed.
+
+Lemma parse_command_with_noof : forall batch fx s, (forall ts, batch ts <> POOF) -> parse_command_with batch fx s <> POOF.
+Proof.
+  intros batch fx s Hb. unfold parse_command_with.
   destruct (negb (tokens_in_domain _)); [discriminate|].
   destruct (negb (tokens_valid _)); [discriminate|].
   destruct (tokenize (utrim s)) as [|[w| | | | | | | | | | | |] rest]; try discriminate.
   repeat match goal with |- (if ?c then _ else _) <> _ => destruct c end;
     try discriminate;
     auto using parse_store_noof, parse_remember_noof, parse_replay_noof, parse_nullary_noof, parse_create_user_noof,
-      parse_list_users_noof, parse_grant_like_noof, of_res_noof, parse_query_noof.
+      parse_list_users_noof, parse_grant_like_noof, of_res_noof, parse_query_noof, parse_plot_cmd_noof, parse_define_noof.
   - destruct rest as [|t r]; [apply parse_grant_like_noof|]. destruct (word_is K_KEY t); [apply parse_revoke_key_noof|apply parse_grant_like_noof].
   - destruct rest as [|t r]; [apply parse_show_noof|]. destruct (word_is K_PERMISSIONS t); [apply parse_show_permissions_noof|apply parse_show_noof].
 Qed.
+
+Lemma parse_command_core_noof : forall fx s, parse_command_core fx s <> POOF.
+Proof. intros. apply parse_command_with_noof. discriminate. Qed.
+
+Lemma batch_parts_noof : forall fx parts acc u, (forall r, u = Some r -> r <> POOF) -> batch_parts fx parts acc u <> POOF.
+Proof.
+  intros fx. induction parts as [|p r IH]; intros acc u Hu; cbn [batch_parts].
+  - destruct u as [x|]; [apply Hu; auto|]. destruct acc; discriminate.
+  - destruct (utrim p); [apply IH; auto|].
+    pose proof (parse_command_core_noof fx p) as Hc.
+    destruct (parse_command_core fx p) as [c| |k| | |um]; try discriminate; try congruence.
+    + apply IH; auto.
+    + apply IH. intros x E. destruct u as [y|]; inversion E; subst; [apply Hu; auto|discriminate].
+    + apply IH. intros x E. destruct u as [y|]; inversion E; subst; [apply Hu; auto|discriminate].
+Qed.
+
+Lemma parse_batch_noof : forall fx ts, parse_batch fx ts <> POOF.
+Proof.
+  intros fx ts. unfold parse_batch. destruct ts as [|t0 [|[] r]]; try discriminate.
+  destruct (batch_buffer r 0 [] false) as [[buf|]|]; try discriminate.
+  apply batch_parts_noof. discriminate.
+Qed.
+
+Theorem parse_command_fuel_enough : forall fx s, parse_command fx s <> POOF.
+Proof. intros. apply parse_command_with_noof. apply parse_batch_noof. Qed.
